@@ -16,7 +16,8 @@ RULE = (
     'stdnum.util._char_map key inserted/substituted; plus single edits of valid numbers - common.mutations and every '
     'digit/A/X inserted, substituted or a character deleted at every position - that validate() happens to '
     'accept; table-driven numbers (every member of a module-level table put in the place of the member found in a '
-    'valid number); the length-/letter-extremal valid numbers of common.extremal_numbers(); self-similar numbers: a substring of a valid number - as written / lower / upper / swapped case - '
+    'valid number); the length-/letter-extremal valid numbers of common.extremal_numbers(); numbers whose body begins with a prefix the '
+    'module strips or carries (with and without it); self-similar numbers: a substring of a valid number - as written / lower / upper / swapped case - '
     'copied over or inserted at another part of it (field starts of 1-4 characters to every position), kept when '
     'validate() accepts, each also in the case spellings of the whole number and of its first field; '
     'only presentations that validate() accepts are used) x '
@@ -278,6 +279,9 @@ def _worker(task):
         for y in common.extremal_numbers(modname):
             for fkw in fopts:
                 check('extremal', y, fkw)
+        for lab, y in G.own_prefix_numbers(mod, common.valid_numbers(modname), rng, 3000 if tier == 'quick' else 20000):
+            for fkw in fopts:
+                check('own-prefix', y, fkw)
     # self-similar valid numbers (the text of one part recurring in another part), in every case spelling
     for idx, v in enumerate(valid):
         gidx = idx * nparts + part
